@@ -31,9 +31,9 @@ from strenum import StrEnum
 from gemseo.algos.aggregation.core import compute_iks_agg
 from gemseo.algos.aggregation.core import compute_lower_bound_ks_agg
 from gemseo.algos.aggregation.core import compute_max_agg
-from gemseo.algos.aggregation.core import compute_max_agg_jac
 from gemseo.algos.aggregation.core import compute_partial_iks_agg_jac
 from gemseo.algos.aggregation.core import compute_partial_ks_agg_jac
+from gemseo.algos.aggregation.core import compute_partial_max_agg_jac
 from gemseo.algos.aggregation.core import compute_partial_sum_positive_square_agg_jac
 from gemseo.algos.aggregation.core import compute_partial_sum_square_agg_jac
 from gemseo.algos.aggregation.core import compute_sum_positive_square_agg
@@ -97,7 +97,7 @@ class ConstraintAggregation(Discipline):
         EvaluationFunction.LOWER_BOUND_KS: compute_partial_ks_agg_jac,
         EvaluationFunction.UPPER_BOUND_KS: compute_partial_ks_agg_jac,
         EvaluationFunction.POS_SUM: compute_partial_sum_positive_square_agg_jac,
-        EvaluationFunction.MAX: compute_max_agg_jac,
+        EvaluationFunction.MAX: compute_partial_max_agg_jac,
         EvaluationFunction.SUM: compute_partial_sum_square_agg_jac,
     }
 
